@@ -168,3 +168,14 @@ check('C18', 'proof',
       "Mode U trusted base: the heap encoding (engine/vcg/heap.py), dropped `warn` calls; non-negative indices only; _set_streams (slices), extend, unit-level operations, pipe "
       "notation and Connection.reconnect are covered only by the bounded groups. 5 defects repaired (pop, clear, reverse, AbstractUnit.insert, AbstractUnit.disconnect).",
       "deductive: AST->SMT VC generation over a symbolic heap (quantified invariant, unbounded heap) with z3; finite-model native replay; bounded exhaustive exploration as stand-in for the rest", "DESIGN.md 4/C18")
+check('C08', 'other',
+      "Mode S: for 1-3 chemicals and every enumerated structure (presence pattern of z, ideal or uninterpreted gamma/phi/pcf, secant success or fall-back bracket branch, via "
+      "__call__ or solve_*), for all real z, T, P and all positive model functions, every path of the real BubblePoint.solve_Ty/solve_Py and DewPoint.solve_Tx/solve_Px returns "
+      "a point that satisfies modified Raoult's law with the NORMALISED composition, returns exactly those fractions summing to one, gives Tsat/Psat and y = z/sum(z) for a "
+      "single positive component, leaves z and the solver object unchanged, and the solution for z also solves the problems for k*z, for the permuted chemical list and the "
+      "inverse T<->P problem. Mode B (bounded, not proved): residual, ordering T_bubble <= T_dew and P_dew <= P_bubble, T-P inverse, k*z and permutation invariance with the "
+      "real solvers on 260 (quick) / 996 (thorough) mixtures of 1-4 of 10 chemicals, ideal and Dortmund packages.",
+      "Level 'other': convergence/uniqueness/ordering are only sampled (mode B). A-root (flx.aitken_secant / IQ_interpolation return x* > 0 with callback(x*) = 0; wegstein a "
+      "fixed point); A-models (Psat, Tsat, gamma, phi, pcf uninterpreted positive, permutation-equivariant); A-real. Known findings F-C08-K1 (Dortmund dew point on mixtures with "
+      "a miscibility gap) and, thorough tier, F-C08-K2a-c printed as KNOWN-FINDING. 3 defects repaired.",
+      "symbolic execution of the real solver set-up/post-processing under root-finder contracts with z3 discharge + bounded run-time contracts on the real solvers", "DESIGN.md 4/C08")
